@@ -37,19 +37,19 @@ Proof.
   destruct (tnew _ _) as [tops order]. by apply tapply_good.
 Qed.
 
-Lemma tcopy_good w t m d ex : TGood w → TGood (tcopy false false false true true true w t m d ex).
+Lemma tcopy_good w t m d ex kp : TGood w → TGood (tcopy false false false true true true w t m d ex kp).
 Proof.
   intros H. unfold tcopy. destruct (ttops w !! t) as [top|]; [|done].
   destruct (copy_solids _ _ _ _ _ _ _) as [[eS eF] parts]. destruct (tnew _ _) as [tops order]. by apply tapply_good.
 Qed.
 
-Lemma fold_tcopy_good m ts : ∀ w, TGood w →
-  TGood (fold_left (λ w t, tcopy false false false true true true w t m (-1) true) ts w).
+Lemma fold_tcopy_good m kp ts : ∀ w, TGood w →
+  TGood (fold_left (λ w t, tcopy false false false true true true w t m (-1) true kp) ts w).
 Proof. induction ts as [|t ts IH]; intros w H; simpl; [done|]. apply IH. by apply tcopy_good. Qed.
 
 Lemma tstep_good w e : TGood w → TGood (tstep_ok w e).
 Proof.
-  intros H. destruct e as [m d sds|m sd|t m d ex|t|t|t|m|s m]; cbn [tstep].
+  intros H. destruct e as [m d sds|m sd|t m d ex|t|t|t|m|t b|s m kp]; cbn [tstep].
   - by apply tcreate_good.
   - by apply tcreate_good.
   - by apply tcopy_good.
@@ -57,6 +57,7 @@ Proof.
   - destruct (ttops w !! t) as [top|]; [|done]. destruct (tt_listed top); [done|by apply tparts_good].
   - destruct (ttops w !! t) as [top|]; [|done]. destruct (tt_listed top); [done|by apply tparts_good].
   - by apply tcreate_good.
+  - destruct (ttops w !! t) as [top|]; [|done]. by apply tapply_good.
   - destruct (decide (s = m)); [done|]. by apply fold_tcopy_good.
 Qed.
 
@@ -89,16 +90,16 @@ Proof. vm_compute. done. Qed.
 Example nested_copy_history_ok :
   let w := trun_ok nested_copy_history in
   live_ids_in 1 (tE w) = [1] ∧ live_ids_in 1 (tS w) = [1; 2; 3] ∧ live_ids_in 1 (tF w) = [1; 2; 3] ∧
-  ttops w !! 3%nat = Some {| tt_ent := Some 1%nat; tt_solids := [(3%nat, [3%nat])]; tt_home := 1%nat; tt_listed := true |}.
+  ttops w !! 3%nat = Some {| tt_ent := Some 1%nat; tt_solids := [(3%nat, [3%nat])]; tt_home := 1%nat; tt_listed := true; tt_hidden := false |}.
 Proof. vm_compute. done. Qed.
 
 (** [collapse_one] is the fold of the copies of the source map's listed world brushes, then entities. *)
 Lemma tcollapse_is_copies r1 r2 r3 c1 c2 c3 w s m : s ≠ m →
-  tstep r1 r2 r3 c1 c2 c3 w (TCollapse s m) =
-  fold_left (tstep r1 r2 r3 c1 c2 c3) ((λ t, TCopy t m (-1) true) <$> (tlisted_of w s false ++ tlisted_of w s true)) w.
+  tstep r1 r2 r3 c1 c2 c3 w (TCollapse s m true) =
+  fold_left (tstep r1 r2 r3 c1 c2 c3) ((λ t, TCopy t m (-1) true) <$> tcollapse_sources w s true) w.
 Proof.
   intros Hn. cbn [tstep]. destruct (decide (s = m)); [done|].
-  generalize (tlisted_of w s false ++ tlisted_of w s true). intros l. revert w.
+  generalize (tcollapse_sources w s true). intros l. revert w.
   induction l as [|t l IH]; intros w; simpl; [done|]. apply IH.
 Qed.
 
@@ -106,7 +107,16 @@ Qed.
     entity, brush B; A is removed and re-added; the collapse into map 1 copies B, A, then the entity. *)
 Example collapse_order :
   let w := trun_ok [TCreateSpawn 0; TCreateSpawn 1; TCreateBrush 0 (7, [-1]); TCreateEnt 0 (-1) [];
-                    TCreateBrush 0 (9, [-1]); TRemove 2; TReAdd 2; TCollapse 0 1] in
+                    TCreateBrush 0 (9, [-1]); TRemove 2; TReAdd 2; TCollapse 0 1 false] in
   torder w = [3; 4; 2; 5; 6; 7]%nat ∧ live_ids_in 1 (tS w) = [1; 2] ∧ live_ids_in 1 (tE w) = [1; 2] ∧
   (tt_solids <$> ttops w !! 5%nat) = Some [(2%nat, [2%nat])] ∧ (tt_solids <$> ttops w !! 6%nat) = Some [(3%nat, [3%nat])].
+Proof. vm_compute. done. Qed.
+
+(** Hidden objects: a hidden brush is never collapsed; a hidden entity only when visgroups are kept, and its copy is
+    hidden then. *)
+Example collapse_hidden :
+  let h := [TCreateSpawn 0; TCreateSpawn 1; TCreateBrush 0 (-1, [-1]); TCreateBrush 0 (-1, [-1]); TCreateEnt 0 (-1) [];
+            THide 2 true; THide 4 true] in
+  tcollapse_sources (trun_ok h) 0 false = [3]%nat ∧ tcollapse_sources (trun_ok h) 0 true = [3; 4]%nat ∧
+  (tt_hidden <$> ttops (trun_ok (h ++ [TCollapse 0 1 true])) !! 6%nat) = Some true.
 Proof. vm_compute. done. Qed.
